@@ -459,8 +459,17 @@ func c14tOne(res *verifkit.Result, st c14tStream, op string, a int) bool {
 		res.Outcome(fmt.Sprintf("%s:%s:%s:ACCEPTED-AND-ALTERED", kind, op, region))
 		return res.Violate("C14:transport:accepted-altered:"+kind+":"+region, d, rp)
 	}
-	if op == "flip" && fail == "" && (region == "header.padding" || strings.HasPrefix(region, "header.") && c14tEscapeActive(mod)) {
-		res.Outcome(fmt.Sprintf("%s:%s:%s:accepted-unprotected-region(harmless)", kind, op, region))
+	if op == "flip" && (region == "header.padding" || strings.HasPrefix(region, "header.") && c14tEscapeActive(mod)) {
+		// same rule as part `stream` (c14Unprotected): no mechanism of the format
+		// covers these bits (DESIGN F6: padding, and every header byte once a
+		// flipped length field has moved the crc slot into the zero padding), so
+		// only ALTERED data is a violation here; the load either returns the
+		// original bytes or fails
+		v := "harmless"
+		if fail != "" {
+			v = "detected-on-load"
+		}
+		res.Outcome(fmt.Sprintf("%s:%s:%s:accepted-unprotected-region(%s)", kind, op, region, v))
 		return false
 	}
 	res.Outcome(fmt.Sprintf("%s:%s:%s:ACCEPTED(%s)", kind, op, region, verdict))
